@@ -125,7 +125,7 @@ def run(chk):
     }
     ops, metas = [], []
     prev = None
-    n_tab = 24 if not thorough else 160
+    n_tab = 26 if not thorough else 160
     flip_plan = []
     for t in range(n_tab):
         if flip_plan:
@@ -150,6 +150,16 @@ def run(chk):
             if t != 10:
                 ep, cb3, ca3 = ep[::-1], cb3[::-1], ca3[::-1]
             data["Epitope"], data["CDR3B"], data["CDR3A"] = ep, cb3, ca3
+        if t == 24:
+            # every run: junctions WITHOUT their closing residue beside valid J genes of several kinds (and beside a missing J): the
+            # junction cell is standardised from the junction cell alone, whatever the row's J column says
+            nrow = 4
+            use = [c for c in std_cols if c in ("TRAV", "CDR3A", "TRAJ", "TRBV", "CDR3B", "TRBJ")]
+            data = {"TRAV": ["TRAV8-4", "TRAV12-2*01", None, "TRAV1-1"], "CDR3A": ["CAVR", "CAVRDSNYQLI", "CAVF", "CAV"],
+                    "TRAJ": ["TRAJ43*01", "TRAJ33*01", "TRAJ28*01", None],
+                    "TRBV": ["TRBV7-2*01", None, "TRBV1", "TRBV9"], "CDR3B": ["CASSW", "CASS", "CASSLGQAYEQY", "CASSF"],
+                    "TRBJ": ["TRBJ2-4*01", "TRBJ1-5*01", "TRBJ2-7*01", None]}
+            data = {c: data[c] for c in use}
         data["clone_count"] = [rng.randint(1, 9) for _ in range(nrow)]
         data["note"] = [rng.choice(["x", None, "TRAV1-1*01"]) for _ in range(nrow)]
         # missing cells come as None, float NaN or pandas' NA (object columns holding pd.NA; nullable "string" columns)
@@ -193,7 +203,9 @@ def run(chk):
                     tcr_enforce_functional=rng.random() < 0.5, tcr_precision=rng.choice(["gene", "allele"]),
                     mhc_precision=rng.choice(["gene", "protein", "allele"]), strict_cdr3_standardization=rng.random() < 0.5,
                     suppress_warnings=True)
-        if t in (10, 12, 14, 16, 18, 20, 22):
+        if t == 24:
+            opts.update(species="HomoSapiens", strict_cdr3_standardization=False)
+        if t in (10, 12, 14, 16, 18, 20, 22, 24):
             opts["standardize"] = True            # (the forced tables above are about what standardisation does)
         if t % 2 == 1 and prev is not None:
             df, mapper, prev_opts = prev
